@@ -20,6 +20,8 @@ import XdslModel.IRApi
 import XdslModel.RewriteDriver
 import XdslModel.ParallelMov
 import XdslModel.Loops
+import XdslModel.DCE
+import XdslModel.EGraph
 /-!
 Model registry for the driver: `MODEL <name>` selects a `(state, lineStep)` pair.
 A continuation-passing encoding is used because the state types differ.
@@ -52,6 +54,8 @@ def run? (name : String) : Option Runner :=
   | "rewrite_driver" => some fun k => k RewriteDriver.lineStep {}
   | "parallel_mov" => some fun k => k ParallelMov.lineStep ()
   | "loops" => some fun k => k Loops.lineStep ()
+  | "dce" => some fun k => k DCE.lineStep ()
+  | "egraph" => some fun k => k EGraph.lineStep ()
   | _ => none
 
 end Xdsl.Registry
